@@ -223,6 +223,10 @@ def runEntry (s : St) (e : Entry) (dests : List Peer) (n : Nat) : St × Nat × N
 * `handler <h>` — register error handler number h
 * `send <entry> <dests> <n>` — the entry point towards these peers, n messages per `Router.Send`;
   answer `<ok|err:k> delivered=<d>`
+* `par <entry> <dead peers> <healthy peer>` — one send per dead peer through that entry point, all
+  running at the same time, and meanwhile a router send to the healthy peer. Sends are atomic steps
+  of the model and sends about different peers commute (`c09_contained`), so the answer is that of
+  any sequential order: `err:<k>|<answer of the healthy send>`
 * `down <p>` — the peer stops and every connection with it is detected; answer: the handler
   invocations `h>p` in order
 * `freeze <p>` — the peer goes silent without closing anything (power loss, partition): the read
@@ -250,6 +254,15 @@ def step (s : State) (toks : List String) : State × String :=
       if n = 0 then (s, "bad-op") else
       let r := runEntry s e ds n
       (r.1, (if r.2.1 = 0 then "ok" else s!"err:{r.2.1}") ++ s!" delivered={r.2.2}")
+    | _, _, _ => (s, "bad-op")
+  | ["par", e, ds, hp] =>
+    match parseEntry e, Util.natList ds, hp.toNat? with
+    | some e, some ds, some hp =>
+      let r := ds.foldl (fun (acc : St × Nat) d =>
+        let x := runEntry acc.1 e [d] 1
+        (x.1, acc.2 + x.2.1)) (s, 0)
+      let hres := runEntry r.1 .routerSend [hp] 1
+      (hres.1, s!"err:{r.2}|" ++ (if hres.2.1 = 0 then "ok" else s!"err:{hres.2.1}") ++ s!" delivered={hres.2.2}")
     | _, _, _ => (s, "bad-op")
   | ["down", p] | ["freeze", p] =>
     match p.toNat? with
